@@ -94,16 +94,16 @@ impl Interface for Serial {
             let frame_buf = frame.to_usart_frame();
 
             let buf = [0x00; 1];
-            if let Err(err) = self.port.write(&buf) {
+            if let Err(err) = self.port.write_all(&buf) {
                 return Err(InterfaceError::SerialError(SerialError::WriteError(err)));
             }
 
             let buf = [frame_buf.len() as u8; 1];
-            if let Err(err) = self.port.write(&buf) {
+            if let Err(err) = self.port.write_all(&buf) {
                 return Err(InterfaceError::SerialError(SerialError::WriteError(err)));
             }
 
-            if let Err(err) = self.port.write(&frame_buf) {
+            if let Err(err) = self.port.write_all(&frame_buf) {
                 return Err(InterfaceError::SerialError(SerialError::WriteError(err)));
             }
         }
